@@ -328,6 +328,12 @@ func builtinStringSplit(call FunctionCall) Value {
 		limit = int(toUint32(limitValue))
 	}
 
+	// ToString(separator) (15.5.4.14 step 8) comes before the limit == 0 test (step 9).
+	separator := ""
+	if !separatorValue.IsUndefined() && !separatorValue.isRegExp() {
+		separator = separatorValue.string()
+	}
+
 	if limit == 0 {
 		return objectValue(call.runtime.newArray(0))
 	}
@@ -400,8 +406,6 @@ func builtinStringSplit(call FunctionCall) Value {
 	RETURN:
 		return objectValue(call.runtime.newArrayOf(valueArray))
 	} else {
-		separator := separatorValue.string()
-
 		splitLimit := limit
 		excess := false
 		if limit > 0 {
